@@ -78,7 +78,19 @@ class Func:
         return f"bitstring/{self.mod}.py"
 
     def loc(self, node=None):
+        real = _REAL_LINES.get(self.mod)
+        if real is not None:
+            # this module's tree was rewritten (new helpers integrated): report the function's line in the real file
+            root = self
+            while root.parent is not None:
+                root = root.parent
+            q = f"{root.cls}.{root.name}" if root.cls else root.name
+            ln = real.get(q)
+            return f"{self.file()}:{ln if ln else '?'} (in {q}; new helper(s) integrated for the analysis)"
         return f"{self.file()}:{getattr(node or self.node, 'lineno', self.node.lineno)}"
+
+
+_REAL_LINES = {}      # module -> {qualified function name: def line in the real file}, for modules rewritten by engine/inline.py
 
 
 class ClassInfo:
@@ -114,6 +126,15 @@ class Model:
                 self.mods[name] = ast.parse(text, path)
             except SyntaxError as e:
                 raise AnalysisError(f"cannot parse {path}: {e}")
+        from . import inline
+        _REAL_LINES.clear()
+        try:
+            rewritten, self.integrated_helpers = inline.integrate(self.mods, self.src)
+        except Exception as e:      # the integration is an aid, never a reason to fail: analyse the tree as written
+            rewritten, self.integrated_helpers = {}, []
+            for name, text in self.src.items():
+                self.mods[name] = ast.parse(text)
+        _REAL_LINES.update(rewritten)
         self.classes = {}
         self.funcs = {}
         self.modfuncs = collections.defaultdict(dict)
@@ -407,16 +428,22 @@ class Model:
                     a, b = ps[1], ps[2]
                     rets = [x for x in ast.walk(f.node) if isinstance(x, ast.Return) and isinstance(x.value, ast.Tuple) and
                             [getattr(e, 'id', None) for e in x.value.elts] == [a, b]]
-                    chk = [x for x in ast.walk(f.node) if isinstance(x, ast.If) and any(isinstance(y, ast.Raise) for y in x.body) and
-                           {a, b} <= {n.id for n in ast.walk(x.test) if isinstance(n, ast.Name)} and 'len(self)' in ast.unparse(x.test)]
-                    if rets and chk:
+                    lens = {'len(self)'} | {ast.unparse(x.targets[0]) for x in ast.walk(f.node) if isinstance(x, ast.Assign) and len(x.targets) == 1
+                                            and ast.unparse(x.value) == 'len(self)'}
+                    # a range test naming both parameters and the length, and a raise (in the test's branch or after it)
+                    chk = [x for x in ast.walk(f.node) if isinstance(x, ast.Compare) and {a, b} <= {n.id for n in ast.walk(x) if isinstance(n, ast.Name)}
+                           and any(ast.unparse(y) in lens for y in ast.walk(x))]
+                    raises = [x for x in ast.walk(f.node) if isinstance(x, ast.Raise)]
+                    other_rets = [x for x in ast.walk(f.node) if isinstance(x, ast.Return) and x not in rets]
+                    if rets and chk and raises and not other_rets:
                         self.validators.add(name)
                 if f.is_classmethod() and len(ps) == 2:
                     arg = ps[1]
-                    for x in ast.walk(f.node):
-                        if isinstance(x, ast.If) and ast.unparse(x.test) == f'isinstance({arg}, {ps[0]})' and x.body and \
-                                isinstance(x.body[0], ast.Return) and ast.unparse(x.body[0].value) == arg:
-                            self.promoters.add(name)
+                    tests = [x for x in ast.walk(f.node) if isinstance(x, ast.Call) and ast.unparse(x) == f'isinstance({arg}, {ps[0]})']
+                    same = [x for x in ast.walk(f.node) if isinstance(x, ast.Return) and x.value is not None and ast.unparse(x.value) == arg]
+                    fresh = [x for x in ast.walk(f.node) if isinstance(x, ast.Call) and ast.unparse(x.func) in ('super().__new__', 'object.__new__', ps[0])]
+                    if tests and same and fresh:
+                        self.promoters.add(name)
         if not self.validators:
             raise AnalysisError('anchor vanished: no (start, end) range validator found on the bitstring classes')
         if not self.promoters:
